@@ -71,8 +71,8 @@ def run(ctx, replay=None):
             rc, out, err, _ = sh(["go", "build", "-o", env_relic, "."], cwd=REPO, env=GOENV, timeout=1200)
         if rc != 0:
             ctx.violation("C07:relic-build", "relic binary does not build: " + err[-300:], {"stderr": err[-2000:]}, False)
-        os.environ["VERIF_RELIC"] = env_relic
-        os.environ["VERIF_REPO"] = REPO
+        GOENV["VERIF_RELIC"] = env_relic        # ctx.drv passes GOENV to the driver
+        GOENV["VERIF_REPO"] = REPO
         for cmd in ("c07lib", "c07"):
             rc, out, err = ctx.drv([cmd], timeout=600)
             if rc != 0:
